@@ -19,6 +19,8 @@ def main(argv: list[str] | None = None) -> int:
     r = sub.add_parser("replay")
     r.add_argument("path")
     sub.add_parser("selftest")
+    lt = sub.add_parser("langtest")
+    lt.add_argument("only", nargs="?")
     args = ap.parse_args(argv)
 
     from .loader import load_program
@@ -38,6 +40,14 @@ def main(argv: list[str] | None = None) -> int:
         except Exception as e:  # noqa: BLE001
             print(f"jstat selftest FAILED: {type(e).__name__}: {e}")
             return 2
+    if args.cmd == "langtest":
+        from . import langtest
+
+        n, failures = langtest.run(verbose=True, only=args.only)
+        for f_ in failures:
+            print("  MISMATCH " + f_[:400])
+        print(f"jstat langtest: {n} snippet functions, {len(failures)} mismatches")
+        return 0 if not failures else 2
     if args.cmd == "replay":
         data = json.load(open(args.path))
         print(json.dumps(data, indent=1))
